@@ -517,14 +517,9 @@ def _canon(vals):
 
 def _component_matches(g, lab):
     """one (encoded) component of a tuple label against an (encoded) axis label: numbers by value, text by text
-    (NumPy turns the tuples of a mixed int / str selection into strings, '10' stands for 10)"""
+    (a number is never stood for by its text: '10' is not 10)"""
     if lab[0] == "n":
-        if g[0] == "n":
-            return _fr(g) == _fr(lab)
-        try:
-            return g[0] == "s" and Fraction(float(g[1])) == _fr(lab)
-        except Exception:
-            return False
+        return g[0] == "n" and _fr(g) == _fr(lab)
     return g[0] == lab[0] and g[1:] == lab[1:]
 
 
